@@ -8,6 +8,8 @@ ROOT = os.path.dirname(os.path.dirname(os.path.abspath(__file__)))
 
 def _init_worker():
     import warnings; warnings.filterwarnings("ignore")
+    try: sys.set_int_max_str_digits(0)
+    except AttributeError: pass
     os.environ.setdefault("JAX_PLATFORMS", "cpu")
     os.environ.setdefault("XLA_FLAGS", "--xla_cpu_multi_thread_eigen=false intra_op_parallelism_threads=1")
     os.environ.setdefault("JINNS_VERIF", "1")
